@@ -82,6 +82,28 @@ def run_case(case):
         else:
             return {"error": "pruned training set contains %r which is not a sample of the original set (multiset)" % (p,),
                     "props": ["C17"]}
+    # "pruning retains ONLY such samples": reference rounds with fresh models - S_0 = the original set, S_{t+1} = the
+    # samples of S_t flagged relevant after fit(S_t) + predict(V) (the flags themselves are checked against the
+    # conqueror / ancestor oracle above) - the model left behind must be built on exactly S_T, rows in order
+    cur_X, cur_Y = X.copy(), Y.copy()
+    try:
+        for t in range(case["iters"] + 1):
+            ref = SupervisedOPF(distance=case["metric"])
+            ref.fit(cur_X.copy(), cur_Y.copy())
+            if t == case["iters"]:
+                break
+            ref.predict(V.copy())
+            keep = [i for i, nd in enumerate(ref.subgraph.nodes) if nd.relevant != 0]
+            cur_X, cur_Y = cur_X[keep], cur_Y[keep]
+    except Exception:
+        return None             # a reference round degenerated (single class left): outside the statement
+    want_pairs = [(tuple(x), int(y)) for x, y in zip(cur_X.tolist(), cur_Y.tolist())]
+    if pairs != want_pairs:
+        extra = [p for p in pairs if p not in want_pairs]
+        missing = [p for p in want_pairs if p not in pairs]
+        return {"error": "after prune(n_iterations=%d) the training set has %d samples, but keeping exactly the relevant "
+                         "samples round by round leaves %d; retained although irrelevant: %s; dropped although relevant: %s"
+                         % (case["iters"], len(pairs), len(want_pairs), extra[:3], missing[:3]), "props": ["C17"]}
     return None
 
 
@@ -136,7 +158,7 @@ def explore(tier="quick", prop="C17"):
             break
     stats["findings"] = learn_state()
     stats["rule"] = ("real SupervisedOPF: fit + predict on generated data, relevant flags compared with the conquerors (first "
-                     "minimiser in conquest order) and all their ancestors; prune(1..3 iterations) final training set must be a "
+                     "minimiser in conquest order) and all their ancestors; prune(1..3 iterations) final training set must equal the round-by-round reference (keep exactly the relevant samples) and be a "
                      "sub-multiset of the original (features, label) pairs; learn exercised on a set with validation errors; "
                      "every case non-trivial (>= 4 training samples, >= 1 query)")
     return stats, failure
